@@ -294,6 +294,15 @@ def outcome_letter(status, msg):
     return "o"
 
 
+def _leg1_failed(wn, spec, e, backup, conv_err):
+    """the unobserved first leg of a continued / re-used run raised: an observation that only carries the exception"""
+    return {"outs": [], "pres": [], "posts": [], "rows": [], "save_times": [], "kinds_hit": [], "newton": [], "warnings": [],
+            "exc": (type(e).__name__, str(e)), "leg1": True, "t0": (0, -1), "hyd": wn.options.time.hydraulic_timestep,
+            "report": wn.options.time.report_timestep, "duration": wn.options.time.duration, "report_start": wn.options.time.report_start,
+            "trials": wn.options.hydraulic.trials, "backup": backup, "conv_err": bool(conv_err),
+            "node_names": list(wn.node_name_list), "link_names": list(wn.link_name_list)}
+
+
 def observe_run(spec, plan=None, backup=None, conv_err=False, max_calls=None, keep_tables=True, solver=None, solver_options=None):
     """run the real `WNTRSimulator.run_sim` on a fresh model with fault plan {call number: kind}.
     backup: None | 'newton' | 'fsolve'; solver: None (NewtonSolver) | 'fsolve'.  Returns the observation dict."""
@@ -319,7 +328,10 @@ def observe_run(spec, plan=None, backup=None, conv_err=False, max_calls=None, ke
         sim = wntr.sim.WNTRSimulator(wn)
         with warnings.catch_warnings(), _quiet_fds():
             warnings.simplefilter("ignore")
-            sim.run_sim()
+            try:
+                sim.run_sim()
+            except Exception as e:  # run_sim(convergence_error=False) must not raise: judged like an observed run
+                return _leg1_failed(wn, spec, e, backup, conv_err)
         wn.options.time.hydraulic_timestep, wn.options.time.report_timestep, wn.options.time.duration = full
         if ru["mode"] == "fresh":
             wn.reset_initial_values()
@@ -329,7 +341,10 @@ def observe_run(spec, plan=None, backup=None, conv_err=False, max_calls=None, ke
         wn.options.time.duration = spec["c16_restart"]
         with warnings.catch_warnings(), _quiet_fds():
             warnings.simplefilter("ignore")
-            wntr.sim.WNTRSimulator(wn).run_sim()
+            try:
+                wntr.sim.WNTRSimulator(wn).run_sim()
+            except Exception as e:
+                return _leg1_failed(wn, spec, e, backup, conv_err)
         wn.options.time.duration = full
     if sim is None:
         sim = wntr.sim.WNTRSimulator(wn)
@@ -1656,6 +1671,9 @@ class C16(Check):
                 if len(ctx.samples) < 4 and (obs["kinds_hit"] or partial) and ctx.rng.random() < 0.2:
                     ctx.sample({"controls": spec.get("c16_controls"), "options": spec["options"], "plan": case["plan"],
                                 "backup": case["backup"], "conv_err": case["conv_err"], "observed": replay["observed"]})
+                if obs.get("leg1"):
+                    ctx.count("first_leg_raised")
+                    continue
                 if obs["exc"] is not None and (obs["exc"][0] == "Runaway" or status_of(obs) is None):
                     continue  # an exception the model has no name for is already a Failure above; nothing to compare
                 if not integral_times(obs):
